@@ -20,6 +20,24 @@ CHECKS = {
         technique="Lean 4 proof (omega; invariant by induction over operations) + differential correspondence"),
 }
 
+CHECKS.update({
+    "C02": dict(
+        category="proof",
+        text="Lean 4 model of the audit loop (rounds, wake-up, dependency gate, period start/end, final round); theorems on the marker grammar of every auditor for all configurations and histories; tied to the real audit loop by a correspondence on the start/report/stop stream of random configurations x histories, with the period specification (`explain`: bracketed, explainable from a fresh start, closed at the end) evaluated on the real stream.",
+        note="Trusted: Lean kernel; govaluate for expression values (a fragment is re-implemented and compared); the final round's wall-clock time; hooks and harness.",
+        technique="Lean 4 proof (invariant over rounds) + differential correspondence on the real audit loop + spec oracle"),
+    "C08": dict(
+        category="proof",
+        text="Lean 4 model of detectSignals (whole-line pattern family, number and date parsing, delta state, grouping by time stamp) and of the forwarding through the audit loop; specification pointsOf = one point per matching parsable line; theorems relate the two; the real pipeline detectSignals -> audit loop -> collector CSV is compared with the model and with pointsOf on generated line sequences.",
+        note="Trusted: Lean kernel; Go regexp (matching is re-implemented only for the whole-line family), strconv.ParseFloat / time.Parse outside the modelled literals; reception time only checked to be a wall-clock stamp.",
+        technique="Lean 4 proof + differential correspondence through the real detectSignals/audit/collector + spec oracle on CSV rows"),
+    "C11": dict(
+        category="proof",
+        text="Lean 4 model of collectFns, evalFunctions and processAssignments; specifications collectSpec / funcOk written from the property; theorems for every N and value sequence; real collectFns/evalFunctions and dependent clause chains through the real audit loop (govaluate included) compared with the model and the specification.",
+        note="Trusted: Lean kernel; float64 idealised as exact rationals (tolerance 1e-9, NaN/Inf excluded); govaluate evaluation outside the modelled fragment.",
+        technique="Lean 4 proof (insertion-sort invariants, folds) + differential correspondence + spec oracle"),
+})
+
 NOT_APPLICABLE = [
     {"property_id": "C14", "reason": "data-race freedom is a property of memory accesses under the Go memory model; no executable Lean model compared on values can exhibit an unsynchronised access (DESIGN.md 5/C14)"},
 ]
@@ -76,7 +94,7 @@ def main():
         f.write("\n")
 
 
-HOOK_COMMITS = ["f54323b"]
+HOOK_COMMITS = ["f54323b", "bfaa749", "1959c79"]
 
 if __name__ == "__main__":
     main()
